@@ -83,9 +83,10 @@ Definition model_of (c : c19_case) : list rmeth * table :=
   find_interface (Env (cc_self c) (cc_pkg_imports c)) (cc_specs c) (cc_priv c) (cc_emb c)
                  (cc_tree c).
 
-Definition in_domain (c : c19_case) : bool :=
+Definition in_domain_with (mo : list rmeth * table) (c : c19_case) : bool :=
   Nat.leb (height (cc_tree c)) 2 && tree_in_domain (cc_tree c) &&
-  aliases_ok (cc_locals c) (snd (model_of c)).
+  aliases_ok (cc_locals c) (snd mo).
+Definition in_domain (c : c19_case) : bool := in_domain_with (model_of c) c.
 
 (* ---- specification side ---- *)
 Definition names_ok (c : c19_case) (o : obs_meth) : bool :=
@@ -113,8 +114,8 @@ Definition meth_eq (o : obs_meth) (m : rmeth) : bool :=
   list_eqb (om_in o) (map (fun p : string * bool * texpr => fst (fst p)) (rm_in m)) &&
   list_eqb (om_out o) (map (fun p : string * bool * texpr => fst (fst p)) (rm_out m)).
 
-Definition model_eq (c : c19_case) : bool :=
-  let '(ms, act) := model_of c in
+Definition model_eq_with (mo : list rmeth * table) (c : c19_case) : bool :=
+  let '(ms, act) := mo in
   Nat.eqb (List.length ms) (List.length (cc_obs c)) &&
   forallb (fun o => match filter (fun m => String.eqb (rm_name m) (om_name o)) ms with
                     | [m] => meth_eq o m
@@ -127,6 +128,8 @@ Definition model_eq (c : c19_case) : bool :=
              | Some i => String.eqb (i_alias i) al && String.eqb (import_string i) istr
              | None => false
              end) (cc_obs_imports c).
+
+Definition model_eq (c : c19_case) : bool := model_eq_with (model_of c) c.
 
 (* go/types' method set of *T against the selector rule as formalised in the model *)
 Definition goms_ok (c : c19_case) : bool :=
@@ -144,9 +147,10 @@ Definition c19_judge_info (c : c19_case) : nat :=
 
 (* both in one evaluation: codes 1-3 gate, 12 = outside the quantifier and different from the model *)
 Definition c19_judge_all (c : c19_case) : nat :=
+  let mo := model_of c in
   if negb (goms_ok c) then 3
-  else if in_domain c then verdict (spec_ok c) (model_eq c)
-  else if model_eq c then 0 else 12.
+  else if in_domain_with mo c then verdict (spec_ok c) (model_eq_with mo c)
+  else if model_eq_with mo c then 0 else 12.
 
 Definition c19_nontrivial (c : c19_case) : bool :=
   in_domain c &&
